@@ -321,8 +321,13 @@ func classifyTimers(fn *ssa.Function, more ...*ssa.Function) *timerInfo {
 						if c.Call.IsInvoke() && c.Call.Method.Name() == "NextDelay" {
 							kind[x] = "connect"
 						}
-						if f := c.Call.StaticCallee(); f != nil && f.Name() == "getOrUseDefault" && strings.Contains(fieldPath(c.Call.Args[0]), "RefreshWindow") {
-							kind[x] = "refresh"
+						// a helper of the program that is handed the configured refresh window (value-or-default)
+						if f := c.Call.StaticCallee(); f != nil && curProg != nil && curProg.InRepo(f) {
+							for _, a := range c.Call.Args {
+								if strings.Contains(fieldPath(a), "RefreshWindow") {
+									kind[x] = "refresh"
+								}
+							}
 						}
 					}
 					if strings.Contains(fieldPath(o), "RefreshWindow") {
@@ -764,6 +769,9 @@ func c16Refresh(p *Prog, r *Report) {
 	var mb []string
 	addOK, remOK, adopt := false, false, false
 	se := p.methodOf(cl, "sendEvent")
+	if se == nil {
+		fatalf("anchor: the Cluster method that delivers an event to the listeners was not found")
+	}
 	// where an event is "decided": at the sendEvent call itself, or - when the call sits in a callback
 	// that mergeHosts hands to a diff helper - where the helper invokes that callback
 	decidedAt := func(c ssa.CallInstruction) []ssa.Instruction {
